@@ -1,8 +1,12 @@
 """C17 - replication: acknowledged writes are where the mode promises; replicas converge.
 
-Part A: vector-clock dominance, the conflict resolvers, the per-key merge function and its ACI lemmas.
-Part B: ReplicatedStore quorum arithmetic.
-See DESIGN.md section 3-C17.
+Part A: vector-clock dominance, the conflict resolvers.          Part B: ReplicatedStore quorum arithmetic.
+Part C: message / future / store modelling.                      Part D-E: primary-backup (backup, primary).
+Part F: chain replication (CRAQ dirty bookkeeping, reads).       Part G: multi-leader (per-key merge on Replicate, local write).
+Part H: lemmas (merge is ACI, newest-seq-wins is order independent, ack => applied composition).
+Part I: bounded native stand-in (findings/c17_replication.py).
+Exit 0 needs fixes/C17_*.diff applied to the repo; the pinned tree violates the property (see the ghost assertions
+`backup/...`, `chain/...`, the ChainNode invariants and the LeaderNode yield clauses).  See DESIGN.md section 3-C17.
 """
 from pyvc.spec import *
 
@@ -50,7 +54,7 @@ ghost(F_PB, "PrimaryNode._handle_write", "reply_future.resolve(", "_c17_primary_
 # ChainNode: ghost bookkeeping of (a) the newest write received per key, (b) the writes applied at this node whose
 # commit at the tail this node has not observed yet (CRAQ: exactly those make a key dirty)
 ghost(F_CH, "ChainNode._handle_write", "yield from self._store.put(key, value)", "_c17_chain_applied(self, key, seq)")
-ghost(F_CH, "ChainNode._handle_write", "self._pending_writes.pop(seq, None)", "_c17_chain_committed(self, key, seq)", where="before")
+ghost(F_CH, "ChainNode._handle_write", "return None", "_c17_chain_head_done(self, locals())", where="before*")
 ghost(F_CH, "ChainNode._handle_write", "reply_future.resolve({'status': 'ok'", "_c17_chain_reply(self, key, seq, locals().get('ack_future'))", where="before")
 ghost(F_CH, "ChainNode._handle_propagate", "self._propagations_received += 1", "_c17_chain_received(self, key, value, seq)")
 ghost(F_CH, "ChainNode._handle_propagate", "yield from self._store.put(", "_c17_chain_put(self, key)", where="before")
@@ -75,7 +79,40 @@ PROPERTY = {
     "id": "C17",
     "level": "proof",
     "trusted": ["heap typing of the fields declared in specs/C17.py and specs/common.py"],
+    "task_timeout": 900,      # (refuting the clauses of ChainNode._handle_propagate on the unrepaired tree is slow)
     "assumptions": COMMON_ASSUMPTIONS + [
+        "A-msg: event metadata of the replication protocols is a record over the keys source, destination, key, value, "
+        "seq, ack_future, reply_future, timestamp, writer_id, vector_clock, root_hash with the value types of "
+        "specs/C17.py; a message (Event.context / event_type / target) is not modified after it has been sent",
+        "A-wf: client Write requests carry key and value, Read requests a key; Replicate / Propagate messages carry "
+        "key, value and a seq >= 1, multi-leader Replicate messages are complete (as the verified senders build them)",
+        "A-store (stub_of KVStore.get/put; kv_store.py is not anchored): one wait of the configured latency, then one "
+        "atomic effect (put: data[key] = value, get: the current value or None); replica stores are unbounded "
+        "(KVStore._capacity is None - a bounded store evicts acknowledged writes by construction)",
+        "A-store-fifo: writes issued to one KVStore complete in the order they were issued (constant write latency + "
+        "FIFO tie-break of the event heap, C01) - used only in the paper step from 'the store is always handed the "
+        "value of the newest write' to 'the store ends with the value of the newest write'",
+        "A-future (C02, stub_of SimFuture.resolve / all_of / any_of + rely at yields): a process that yields a future is "
+        "resumed only after the future is resolved; an all_of future resolves only when every part has, an any_of "
+        "future only when some part has; resolve() settles the future",
+        "A-network: Network.send runs inlined (real code); delivery, delay and reordering of the created messages are "
+        "arbitrary (every yield havocs the whole heap except the listed stable fields)",
+        "A-bound: at most 3 backups per primary / 3 peers per leader (the handlers are unrolled over the list; the "
+        "clauses are the same for every size, the check covers 0..3)",
+        "A-chain: chain nodes are wired by build_chain (the node reached by following next_node has role TAIL); a "
+        "node that is not wired into a chain (head_node is None) answers reads from its own store",
+        "A-lww: versions carry float timestamps (HLCTimestamp timestamps are not covered) and leaders use the default "
+        "LastWriterWins resolver; VectorClockMerge is verified with merge_fn=None",
+        "A-ML-timestamps (hypothesis H1 of the merge lemma): a version whose vector clock dominates another's also has "
+        "the later (timestamp, writer) pair, and a (timestamp, writer) pair names one version - true when causally "
+        "ordered writes happen at distinct simulated instants; with zero-latency links and same-instant writes "
+        "last-writer-wins and causality can disagree (not covered)",
+        "A-clock/merkle: VectorClock.send/receive (contracts of specs/C18.py) and MerkleTree.update (C20) are used "
+        "opaquely (stub_of with no ensures); leaders are wired with add_peers (LeaderNode._vclock is not None)",
+        "composition: 'once all in-flight messages are delivered every replica holds the same value' is the paper step "
+        "from the per-handler clauses + the lemmas of part H (each replica's per-key state is an order-independent "
+        "fold over the set of messages it received); the anti-entropy handlers apply the same per-key merge in a loop "
+        "and are exercised only by the bounded check",
     ],
 }
 
@@ -779,52 +816,44 @@ from happysimulator.components.replication.chain_replication import ChainNode, C
 import happysimulator.components.replication.chain_replication as _ch_mod  # noqa: E402
 
 ROLE = EnumTy(ChainNodeRole)
-ISET = Set(Int)
-UNC = Map(Str, ISET)
+CNT = Map(Str, Int)
 cls(ChainNode, fields={"_store": Ref(KVStore), "_network": Ref(Network), "_role": ROLE, "_craq_enabled": Bool,
                        "next_node": OptRef(ChainNode), "prev_node": OptRef(ChainNode), "head_node": OptRef(ChainNode),
                        "_dirty_keys": Set(Str), "_pending_writes": Map(Int, Ref(SimFuture)), "_next_seq": Int,
                        "_writes_received": Int, "_propagations_sent": Int, "_propagations_received": Int,
                        "_acks_sent": Int, "_reads_served": Int,
-                       # fields of the repaired tree: in-flight write seqs per key, newest accepted write per key
-                       "_dirty_seqs": UNC, "_latest": LATEST},
-    # ghost: newest write received per key (g_seq, g_val); g_unc[k] = seqs of the writes to k applied at this
-    # node whose commit at the tail the node has not yet observed (maintained in CRAQ mode only)
-    ghost={"g_seq": Map(Str, Int), "g_val": DATA, "g_unc": UNC},
+                       # fields of the repaired tree: in-flight writes per key, newest accepted write per key
+                       "_dirty_count": CNT, "_latest": LATEST},
+    # ghost: g_newest[k] = (seq, value) of the newest write received for k; g_unc[k] = number of writes to k applied
+    # at this node whose commit at the tail the node has not yet observed (maintained in CRAQ mode only).
+    # (the invariants are kept quantifier-free - set inclusion / map equality - which the solver decides quickly)
+    ghost={"g_newest": LATEST, "g_unc": CNT},
     const=["_store", "_network", "_role", "_craq_enabled", "next_node", "prev_node", "head_node"],
     inv=[
         # CRAQ safety: a key with a write that is applied here but not known to be committed at the tail is dirty
         ("key-with-uncommitted-write-is-dirty", lambda o: forall(Str, lambda k: implies(
             has(o.g_unc, k), has(o._dirty_keys, k)))),
-        ("uncommitted-sets-nonempty", lambda o: forall(Str, lambda k: implies(
-            has(o.g_unc, k), Not(mk_bool(ISET.dt.dom(mval(o.g_unc, k)) == z3.K(z3.IntSort(), z3.BoolVal(False))))))),
-        # representation (repaired tree): the in-flight bookkeeping is exactly the ghost
-        ("dirty-seqs-are-the-uncommitted-writes", lambda o: mk_bool(UNC.dt.dom(o._dirty_seqs.term) == UNC.dt.dom(o.g_unc.term))
-            & forall(Str, lambda k: implies(has(o.g_unc, k), mk_bool(
-                ISET.dt.dom(mval(o._dirty_seqs, k)) == ISET.dt.dom(mval(o.g_unc, k)))))),
-        ("accepted-keys-are-the-received-keys", lambda o: mk_bool(
-            o._latest._ty.dt.dom(o._latest.term) == o.g_seq._ty.dt.dom(o.g_seq.term))),
-        ("accepted-write-is-the-newest-received", lambda o: forall(Str, lambda k: implies(
-            has(o.g_seq, k), mk_bool(mval(o._latest, k) == LATEST.val.dt.mk(mval(o.g_seq, k), mval(o.g_val, k)))))),
+        # representation (repaired tree): the in-flight counter / the accepted writes are exactly the ghosts
+        ("dirty-count-is-the-number-of-uncommitted-writes", lambda o: mk_bool(o._dirty_count.term == o.g_unc.term)),
+        ("accepted-write-is-the-newest-received", lambda o: mk_bool(o._latest.term == o.g_newest.term)),
         ("seq-counter-nonneg", lambda o: o._next_seq >= 0),
     ],
     guarantee=[
-        ("newest-received-seq-per-key-only-grows", lambda old, new: forall(Str, lambda k:
-            new.g_seq.get(k, 0) >= old.g_seq.get(k, 0))),
         ("sequence-numbers-only-grow", lambda old, new: new._next_seq >= old._next_seq),
     ])
 
 
 def _chain_received(self, key, value, seq):
     """ghost: a Propagate message (key, value, seq) has been received"""
-    if seq >= self.g_seq.get(key, 0):
-        self.g_seq[key] = seq
-        self.g_val[key] = value
+    newest = self.g_newest.get(key)
+    if newest is None or seq >= newest[0]:
+        self.g_newest[key] = (seq, value)
 
 
 def _chain_put(self, key):
     """ghost: remember the value of the newest write received for the key when the store write is issued"""
-    _ctx.cur().ghost_args["c17_chain_expected"] = (has(self.g_seq, key), mval(self.g_val, key))
+    _ctx.cur().ghost_args["c17_chain_expected"] = (
+        has(self.g_newest, key), LATEST.val.dt.f1(mval(self.g_newest, key)))
 
 
 def _last_put_value():
@@ -845,23 +874,32 @@ def _chain_put_done(self, key, seq):
 
 
 def _chain_applied(self, key, seq):
-    """ghost: write seq to key is now applied at this node and not known to be committed"""
+    """ghost: one more write to key is applied at this node and not known to be committed"""
     if self._craq_enabled:
-        self.g_unc.setdefault(key, set()).add(seq)
+        self.g_unc[key] = self.g_unc.get(key, 0) + 1
 
 
 def _chain_committed(self, key, seq):
-    """ghost: this node has observed that write seq to key is committed at the tail"""
+    """ghost: this node has observed that a write to key (seq) is committed at the tail"""
     if self._craq_enabled:
-        pending = self.g_unc.get(key)
-        if pending is not None:
-            pending.discard(seq)
-            if not pending:
-                del self.g_unc[key]
+        n = self.g_unc.get(key, 0) - 1
+        if n > 0:
+            self.g_unc[key] = n
+        else:
+            self.g_unc.pop(key, None)
+
+
+def _chain_head_done(self, loc):
+    """ghost (head, at the end of a write it accepted): the tail's ack has been awaited - or there is no
+    successor - so the head has observed the commit of this write"""
+    if "seq" in loc:
+        _chain_committed(self, loc["key"], loc["seq"])
 
 
 def _chain_commit_msg(self, event):
     m = md(event)
+    if self._role is ChainNodeRole.HEAD:
+        return          # the head observes the commit through the WriteAck it is waiting for (see _handle_write)
     if _ctx.cur().branch(MSG.has(m, "key"), site="spec") and _ctx.cur().branch(to_z3_bool(mget(m, "key") != ""), site="spec"):
         seq = mget(m, "seq") if _ctx.cur().branch(MSG.has(m, "seq"), site="spec") else 0
         _chain_committed(self, mget(m, "key"), seq)
@@ -890,6 +928,7 @@ def _chain_read_reply(self, key, value):
 
 
 for _n, _f2 in (("applied", _chain_applied), ("committed", _chain_committed), ("reply", _chain_reply),
+                ("head_done", _chain_head_done),
                 ("received", _chain_received), ("put", _chain_put), ("put_done", _chain_put_done),
                 ("commit_msg", _chain_commit_msg), ("read_reply", _chain_read_reply)):
     setattr(_ch_mod, "_c17_chain_" + _n, _f2)
@@ -1037,7 +1076,7 @@ def seg_unchanged(s, obj, *fields):
     return mk_bool(z3.And(*parts))
 
 
-CHAIN_STATE = ["_dirty_keys", "_dirty_seqs", "_latest", "_pending_writes", "_next_seq", "g_seq", "g_val", "g_unc"]
+CHAIN_STATE = ["_dirty_keys", "_dirty_count", "_latest", "_pending_writes", "_next_seq", "g_newest", "g_unc"]
 # (a read does not touch the replication state: the class invariants are preserved because no segment writes the
 # fields they speak about - checked per segment instead of re-proving each invariant on each of the many paths)
 fn(ChainNode, "_handle_read", args={"event": Ref(Event)}, uses=KV_API + [FUT_RESOLVE, FIND_TAIL],
@@ -1049,4 +1088,301 @@ fn(ChainNode, "_handle_read", args={"event": Ref(Event)}, uses=KV_API + [FUT_RES
                  stable=NODE_STABLE),
    ensures=[("store-untouched", lambda s: mk_bool(s.self._store._data.term == s.pre(s.self._store)._data.term)),
             ("replication-state-untouched", lambda s: seg_unchanged(s, s.self, *CHAIN_STATE))])
+
+# ============================================================================ G. multi-leader
+from happysimulator.components.replication.multi_leader import LeaderNode  # noqa: E402
+from happysimulator.core.logical_clocks import VectorClock  # noqa: E402
+from happysimulator.sketching.merkle_tree import MerkleTree  # noqa: E402
+
+cls(VectorClock, fields={"_node_id": Str, "_vector": VC})
+cls(MerkleTree, fields={})
+# contracts of specs/C18.py (vector clock) and of the Merkle index (C20), used opaquely here: the clauses below do
+# not depend on the clock values - only on which version the dominance test / the resolver selects
+stub_of(VectorClock, "send", returns=VC, modifies=["_vector"], ensures=[])
+stub_of(VectorClock, "receive", modifies=["_vector"], ensures=[])
+stub_of(MerkleTree, "update", modifies=[], ensures=[])
+ML_ENV = [(VectorClock, "send"), (VectorClock, "receive"), (MerkleTree, "update")]
+
+VERSIONS = Map(Str, VV)
+cls(LeaderNode, fields={"_store": Ref(KVStore), "_network": Ref(Network), "_resolver": Ref(LastWriterWins),
+                        "_anti_entropy_interval": Real, "_peers": Seq(Ref(Entity)), "_versions": VERSIONS,
+                        "_merkle": Ref(MerkleTree), "_vclock": OptRef(VectorClock), "_writes": Int, "_reads": Int,
+                        "_replications_sent": Int, "_replications_received": Int, "_conflicts_detected": Int,
+                        "_conflicts_resolved": Int, "_anti_entropy_syncs": Int, "_anti_entropy_keys_repaired": Int},
+    const=["_store", "_network", "_resolver", "_merkle", "_vclock", "_peers"],
+    inv=[("bounded-number-of-peers", lambda o: slen(o._peers) <= MAX_BACKUPS)])
+
+
+def _dominance_calls():
+    return [(vals["a"], vals["b"], r) for q, vals, r in _ctx.cur().ghost_args.get("trace", [])
+            if "_vc_dominates" in q]
+
+
+def _same_vc(x, y_term_opt):
+    """x (what the code passed to _vc_dominates: a symbolic dict, or the literal {} of `vc or {}`) is the vector
+    clock stored in the raw Opt(VC) term y"""
+    o = Opt(VC)
+    if isinstance(x, dict):
+        if x:
+            return False
+        # `vc or {}`: vc was None or empty
+        return mk_bool(z3.Or(o.dt.is_none(y_term_opt), VC.dt.size(o.dt.val(y_term_opt)) == 0))
+    return mk_bool(z3.And(z3.Not(o.dt.is_none(y_term_opt)), x.term == o.dt.val(y_term_opt)))
+
+
+def _incoming_term(s):
+    """the version a Replicate message stands for (raw VV term): defaults as in the handler"""
+    m = md(s.event)
+    ts = z3.If(MSG.has(m, "timestamp"), MSG.acc("timestamp")(m), z3.RealVal(0))
+    w = z3.If(MSG.has(m, "writer_id"), MSG.acc("writer_id")(m), z3.StringVal("unknown"))
+    vc = z3.If(MSG.has(m, "vector_clock"), MSG.acc("vector_clock")(m), VC.empty())
+    return VV.dt.mk(z3.IntVal(0), MSG.acc("value")(m), ts, w, Opt(VC).dt.some(vc))
+
+
+def _lww_gt_t(x, y):
+    d = VV.dt
+    return z3.Or(d.timestamp(x) > d.timestamp(y), z3.And(d.timestamp(x) == d.timestamp(y), d.writer_id(y) < d.writer_id(x)))
+
+
+def _merge_installed(s, old):
+    """versions[key] is merge(old versions[key], incoming):  no version yet -> incoming;  incoming causally after
+    the stored one -> incoming;  stored one causally after incoming -> unchanged;  concurrent -> the later of the
+    two in the last-writer-wins order (the stored one on a tie).  'causally after' = the verdict of _vc_dominates
+    (contract in part A) on (incoming clock, stored clock) resp. (stored clock, incoming clock)."""
+    key = mget(md(s.event), "key")
+    inc = _incoming_term(s)
+    oldv, newv = old._versions, s.self._versions
+    d = VERSIONS.dt
+    had = z3.Select(d.dom(oldv.term), kt(key))
+    ex = z3.Select(d.val(oldv.term), kt(key))
+    now = z3.Select(d.val(newv.term), kt(key))
+    installed = lambda v: mk_bool(z3.And(z3.Select(d.dom(newv.term), kt(key)), now == v))     # noqa: E731
+    calls = _dominance_calls()
+    if not calls:
+        return Not(mk_bool(had)) & installed(inc)
+    a, b, r1 = calls[0]
+    args_ok = _same_vc(a, VV.dt.vector_clock(inc)) & _same_vc(b, VV.dt.vector_clock(ex))
+    if len(calls) == 1:
+        return mk_bool(had) & args_ok & r1 & installed(inc)
+    a2, b2, r2 = calls[1]
+    args_ok = args_ok & _same_vc(a2, VV.dt.vector_clock(ex)) & _same_vc(b2, VV.dt.vector_clock(inc))
+    concurrent = Not(r1) & Not(r2)
+    return (mk_bool(had) & args_ok & Not(r1) & implies(r2, installed(ex))
+            & implies(concurrent, installed(z3.If(_lww_gt_t(inc, ex), inc, ex))))
+
+
+def _others_untouched(s, old):
+    key = mget(md(s.event), "key")
+    d = VERSIONS.dt
+    o, n = old._versions.term, s.self._versions.term
+    return forall(Str, lambda k: implies(k != key, mk_bool(z3.And(
+        z3.Select(d.dom(n), k.t) == z3.Select(d.dom(o), k.t), z3.Select(d.val(n), k.t) == z3.Select(d.val(o), k.t)))))
+
+
+def _put_happened():
+    return any(q == "KVStore.put" for q, _v, _r in _ctx.cur().ghost_args.get("trace", []))
+
+
+def _ml_replicate_yield(s, y):
+    """at the (only) yield - the wait for the store - the merged version is already recorded: a version arriving
+    during the wait is resolved against it (not against a stale read of the version table)"""
+    _ctx.cur().ghost_args["c17_ml_installed"] = mval(s.self._versions, mget(md(s.event), "key"))
+    return _merge_installed(s, s.old(s.self)) & _others_untouched(s, s.old(s.self))
+
+
+def _ml_replicate_exit(s):
+    key = mget(md(s.event), "key")
+    if not _put_happened():
+        return _merge_installed(s, s.old(s.self)) & _others_untouched(s, s.old(s.self))
+    inst = _ctx.cur().ghost_args.get("c17_ml_installed")
+    v = _last_put_value()
+    # after the wait: the version table is not written again, and what the store received is the value of the
+    # version that was recorded
+    return seg_unchanged(s, s.self, "_versions") & mk_bool(v.t == VV.dt.value(inst)) \
+        & has(s.self._store._data, key) & mk_bool(mval(s.self._store._data, key) == v.t)
+
+
+ML_FOCUS = lambda s: [s.self._store]  # noqa: E731
+fn(LeaderNode, "_handle_replicate", args={"event": Ref(Event)}, uses=KV_API + ML_ENV + [DOM_ML],
+   requires=[("replicate-message-is-complete (as sent by _handle_write)", lambda s: mhas(
+                 md(s.event), "key", "value", "timestamp", "writer_id", "vector_clock")), UNBOUNDED],
+   focus=ML_FOCUS,
+   yields=Yields(at_yield=[("delay-nonnegative", _delay_ok),
+                           ("merged-version-recorded-before-waiting-for-the-store", _ml_replicate_yield)],
+                 stable=NODE_STABLE),
+   ensures=[("version-table-holds-the-merge--store-receives-its-value", _ml_replicate_exit)])
+
+
+def _ml_write_yield(s, y):
+    """local write: (1) while waiting for the store the new version (value, now, this leader) is already the recorded
+    one; (2) afterwards exactly one complete Replicate message per peer carries that version"""
+    req = md(s.event)
+    key = mget(req, "key")
+    d = VERSIONS.dt
+    cur = mval(s.self._versions, key)
+    if not isinstance(y, tuple):
+        _ctx.cur().ghost_args["c17_ml_written"] = cur
+        return (has(s.self._versions, key) & mk_bool(VV.dt.value(cur) == MSG.acc("value")(req))
+                & mk_bool(VV.dt.writer_id(cur) == kt(s.self.name))
+                & mk_bool(VV.dt.timestamp(cur) * 1000000000 == z3.ToReal(num(now_ns(s.self))))
+                & _others_untouched(s, s.old(s.self)))
+    ver = _ctx.cur().ghost_args.get("c17_ml_written")
+    if ver is None:
+        return False
+    evs = y[1]
+    peers = [p for p in s.self._peers]
+    if len(evs) != len(peers):
+        return False
+    ok = True
+    for e, p in zip(evs, peers):
+        m = md(e)
+        ok = ok & same(e.target, s.self._network) & (e.event_type == "Replicate") \
+            & mhas(m, "destination", "key", "value", "timestamp", "writer_id", "vector_clock") \
+            & (mget(m, "destination") == p.name) & (mget(m, "key") == key) \
+            & mk_bool(z3.And(MSG.acc("value")(m) == VV.dt.value(ver), MSG.acc("timestamp")(m) == VV.dt.timestamp(ver),
+                             MSG.acc("writer_id")(m) == VV.dt.writer_id(ver),
+                             Opt(VC).dt.some(MSG.acc("vector_clock")(m)) == VV.dt.vector_clock(ver)))
+    return ok
+
+
+def _ml_write_exit(s):
+    key = mget(md(s.event), "key")
+    ver = _ctx.cur().ghost_args.get("c17_ml_written")
+    v = _last_put_value()
+    if ver is None or v is None:
+        return False
+    return mk_bool(v.t == VV.dt.value(ver)) & seg_unchanged(s, s.self, "_versions")
+
+
+fn(LeaderNode, "_handle_write", args={"event": Ref(Event)}, uses=KV_API + ML_ENV + [FUT_RESOLVE],
+   requires=[WRITE_WF, UNBOUNDED, ("leader-is-wired-to-its-peers (add_peers was called)", lambda s: s.self._vclock is not None)],
+   focus=ML_FOCUS,
+   yields=Yields(at_yield=[("delay-nonnegative", _delay_ok),
+                           ("version-recorded-before-the-store-wait--then-replicated-to-every-peer", _ml_write_yield)],
+                 stable=NODE_STABLE),
+   ensures=[("store-receives-the-written-value--version-table-not-rewritten", _ml_write_exit)])
+
+# ============================================================================ H. lemmas: from the handler contracts to convergence
+def _merge_aci():
+    """The per-key update proved for LeaderNode._handle_replicate, as a binary function on versions:
+         merge(x, y) = y if D(y, x);  x if D(x, y);  otherwise the later of the two in the LWW order (x on a tie)
+    where D is the verdict of _vc_dominates.  Hypothesis H1 (listed assumption): a causally later version also has
+    the later (timestamp, writer) pair, D(p, q) => lww(p) > lww(q).  Then merge is the maximum in the LWW order,
+    hence commutative, associative and idempotent: a replica's version of a key is a fold of merge over the SET of
+    versions it has received, so replicas that received the same set hold the same version."""
+    V = z3.DeclareSort("Version")
+    ts = z3.Function("v_ts", V, z3.RealSort())
+    wr = z3.Function("v_writer", V, z3.StringSort())
+    D = z3.Function("v_dominates", V, V, z3.BoolSort())
+
+    def gt(p, q):
+        return z3.Or(ts(p) > ts(q), z3.And(ts(p) == ts(q), wr(q) < wr(p)))
+
+    def merge(x, y):
+        return z3.If(D(y, x), y, z3.If(D(x, y), x, z3.If(gt(y, x), y, x)))
+
+    a, b, c = z3.Const("va", V), z3.Const("vb", V), z3.Const("vc", V)
+    vs = [a, b, c, merge(a, b), merge(b, c), merge(b, a)]
+    for p in vs:
+        for q in vs:
+            assume(z3.Implies(D(p, q), gt(p, q)))                                 # H1
+            assume(z3.Implies(z3.And(ts(p) == ts(q), wr(p) == wr(q)), p == q))   # a (timestamp, writer) pair names one version
+    # the string order is total (z3's str.< is; stated for the three writers to help the solver)
+    oblige("merge-returns-an-argument", z3.Or(merge(a, b) == a, merge(a, b) == b))
+    oblige("merge-is-the-lww-maximum", z3.And(z3.Not(gt(a, merge(a, b))), z3.Not(gt(b, merge(a, b)))))
+    oblige("commutative", merge(a, b) == merge(b, a))
+    oblige("associative", merge(merge(a, b), c) == merge(a, merge(b, c)))
+    oblige("idempotent", merge(a, a) == a)
+
+
+lemma("multi-leader-merge-is-commutative-associative-idempotent", _merge_aci)
+
+
+def _newest_wins_fold():
+    """Primary-backup / chain: a replica hands the store, at every Replicate/Propagate message, the value of the
+    highest seq received so far (proved clause `store-receives-the-value-of-the-highest-seq-received`); the store
+    applies writes in the order they were issued (assumption A-store-fifo).  Induction step: if the last applied
+    write carries the maximum of the seqs received, it still does after one more message - in either arrival order."""
+    m, s1 = fresh(Int, "max_so_far"), fresh(Int, "incoming_seq")
+    v_m, v_1 = fresh(Int, "val_of_max"), fresh(Int, "val_incoming")
+    new_max = ite(s1 >= m, s1, m)
+    put_val = ite(s1 >= m, v_1, v_m)          # what the repaired handlers pass to store.put
+    oblige("store-ends-with-the-value-of-the-maximum", implies(new_max == s1, put_val == v_1) & implies(new_max != s1, put_val == v_m))
+    # two messages in both orders give the same final (max, value) - seqs are unique per write
+    s2, v_2 = fresh(Int, "other_seq"), fresh(Int, "val_other")
+    assume((s1 != s2) & (s1 != m) & (s2 != m))
+
+    def step(state, msg):
+        return (ite(msg[0] >= state[0], msg[0], state[0]), ite(msg[0] >= state[0], msg[1], state[1]))
+    ab = step(step((m, v_m), (s1, v_1)), (s2, v_2))
+    ba = step(step((m, v_m), (s2, v_2)), (s1, v_1))
+    oblige("arrival-order-does-not-matter", (ab[0] == ba[0]) & (ab[1] == ba[1]))
+
+
+lemma("newest-seq-wins-is-order-independent", _newest_wins_fold)
+
+
+def _sync_ack_composition():
+    """SYNC primary-backup: reply resolved => every ack future resolved (PrimaryNode._handle_write);
+    ack future of backup b resolved => b's store holds the write or a newer one (BackupNode._handle_replicate).
+    Chain: reply => tail's WriteAck for the seq (head); WriteAck => applied at the tail (tail); a Propagate leaves
+    node i only after node i applied (middle) - so by induction over the chain every node has applied."""
+    n = 3
+    replied = fresh(Bool, "replied")
+    ack = [fresh(Bool, f"ack{i}") for i in range(n)]
+    applied = [fresh(Bool, f"applied{i}") for i in range(n)]
+    assume(implies(replied, sym_and(*ack)))
+    for i in range(n):
+        assume(implies(ack[i], applied[i]))
+    oblige("sync-reply-implies-applied-on-every-backup", implies(replied, sym_and(*applied)))
+    # chain of n nodes: sent[i] = Propagate/WriteAck leaves node i
+    sent = [fresh(Bool, f"sent{i}") for i in range(n)]
+    app = [fresh(Bool, f"app{i}") for i in range(n)]
+    rep = fresh(Bool, "chain_replied")
+    for i in range(n):
+        assume(implies(sent[i], app[i]))                 # leaves node i only after being applied there
+        if i > 0:
+            assume(implies(app[i], sent[i - 1]))         # node i applies only what node i-1 forwarded
+    assume(implies(rep, sent[n - 1]))                    # head replies only after the tail's ack
+    oblige("chain-reply-implies-applied-at-every-node", implies(rep, sym_and(*app)))
+
+
+lemma("acknowledgement-implies-applied-composition", _sync_ack_composition)
+
+fn(LeaderNode, "_handle_read", args={"event": Ref(Event)}, uses=KV_API + [FUT_RESOLVE], requires=[READ_WF],
+   focus=ML_FOCUS,
+   yields=Yields(at_yield=[("delay-nonnegative", _delay_ok)], stable=NODE_STABLE),
+   ensures=[("replies-with-the-stored-value", _read_reply),
+            ("store-untouched", lambda s: mk_bool(s.self._store._data.term == s.pre(s.self._store)._data.term))])
+
+
+# (ReplicatedStore.get / put / delete are left out: they drive the replica generators with next() inside try/except
+# and index a sorted Python list with the symbolic `required - 1` - OUT-OF-REACH "symbolic number used as a
+# concrete index"; the quorum arithmetic they rest on is part B)
+
+# ============================================================================ I. bounded native stand-in (end to end)
+def _random_replication_runs(seed, tier):
+    """BOUNDED (not a proof): findings/c17_replication.py in a fresh interpreter (no proxies): the three schemes
+    inside real Simulations (public API only) with random per-message delays - so messages for one key overtake
+    each other -, repeated keys, all modes / sizes, concurrent writers.  Checks the statement itself: where an
+    acknowledged write is at the moment of the acknowledgement, what a chain read returns relative to the tail,
+    and that all replicas agree after the run has drained (multi-leader: with anti-entropy running).  Covers the
+    anti-entropy handlers and the cross-node composition that the per-handler contracts leave to the paper argument."""
+    import json
+    import os
+    import subprocess
+    env = dict(os.environ, PYTHONPATH=_ctx.REPO)
+    p = subprocess.run(["/venv/bin/python", "/verif/findings/c17_replication.py", "--json", str(seed), tier],
+                       capture_output=True, text=True, timeout=900, env=env, cwd="/tmp")
+    for ln in p.stdout.splitlines():
+        if ln.startswith("C17-RESULT "):
+            return json.loads(ln[len("C17-RESULT "):])
+    raise RuntimeError(f"native replication stand-in failed: {p.stderr[-600:]}")
+
+
+PROPERTY["bounded"] = [{"name": "replication-random-delays",
+                        "bound": "60 (quick) / 600 (thorough) runs per scheme: 1-3 backups in every mode, 2-4 chain nodes "
+                                 "with and without CRAQ, 2-3 leaders with anti-entropy; 3-8 writes over 2 keys, uniform "
+                                 "random per-message delay in [2 ms, 200 ms]", "fn": _random_replication_runs}]
+
 
